@@ -8,7 +8,7 @@ import sys
 from types import SimpleNamespace
 
 sys.path.insert(0, os.getcwd())
-POP = {"ARG": 45e6, "DJI": 1e6, "NZL": 5e6, "USA": 330e6}
+POP = {"ARG": 45e6, "DJI": 1e6, "NZL": 5e6, "USA": 330e6, "MUS": 2e6, "SWT": 3e6}
 
 
 def main():
